@@ -247,7 +247,7 @@ def keyed_memo_patterns(repo):
     from .vgraph import assigned_names
     out = []
     for f in repo.all_funcs():
-        locals_ = set(assigned_names(f.node.body))
+        locals_ = set(assigned_names(f.node.body)) | {x for x in f.params() if x not in ("self", "cls")}   # a mapping handed in by the caller is the caller's
         stores = {}
         for n in ast.walk(f.node):
             if isinstance(n, ast.Assign):
